@@ -155,7 +155,7 @@ impl State for S {
             "dump" => dump(&mut self.s),
             "xexec" if !self.s.in_txn() => match self.s.exec(&ws[1..].join(" "), None) {
                 Ok(n) => format!("ok | {}", n),
-                Err(e) => format!("{} {}", err(e), "x"),
+                Err(e) => format!("err | {} {}", category_name(e.category), e.message.replace(['\n', '\t', '|'], " ")),
             },
             "xtq" if self.s.in_txn() => match self.s.txn_query(&ws[1..].join(" "), None) {
                 Ok(()) => "ok".into(),
